@@ -87,8 +87,10 @@ async def run_engine(engine, s, req, w_eng, ctx_extra=None):
     context = {"world": w_eng}
     if ctx_extra:
         context.update(ctx_extra)
+    # no variables at all may be spelled {} or None (the `variables` argument left out): the same request
+    variables = None if req.variables == {} and req.wseed % 2 else req.variables
     resp = await to_completion(engine.execute(req.text, operation_name=req.op_name, context=context,
-                                              variables=req.variables, initial_value=root))
+                                              variables=variables, initial_value=root))
     return resp, context
 
 
